@@ -308,8 +308,19 @@ Verdict(e) ==
 \* C15: an event replayed on several threads sharing the same values must have given every thread the sequential result
 ThreadTags(e) == IF Has(e, "tmis") /\ e.tmis > 0 THEN {"C15-thread-result-differs"} ELSE {}
 Init == vL = 1 /\ vZone = UtcZone /\ vBuf = EmptyBuf /\ vBad = {} /\ vInfo = {} /\ vRefOK = TRUE
+\* a local time type that is only a component of the call's argument (a zone's type list, a rule's halves, a date-time's type)
+\* and that LocalTimeType::new refused: well-formed types must be accepted (C13); a refusal the definitions prescribe means the
+\* generator built an argument no client could pass
+TypeRefusal(r) ==
+  LET te == TypeErrs(r.t.off, r.t.des, r.t.des = <<>>) IN
+  IF te = {} THEN {"C13-type-refused-but-well-formed"} ELSE IF r.typeerr \in te THEN {"generator-error"} ELSE {"C13-wrong-error"}
 Step(e) ==
-  IF e.op = "zone" THEN
+  IF Has(e.r, "typeerr") THEN
+     /\ vBad' = vBad \cup {<<vL, t>> : t \in TypeRefusal(e.r)}
+     /\ vZone' = IF e.op = "zone" THEN UtcZone ELSE vZone
+     /\ vInfo' = vInfo
+     /\ vBuf' = IF e.op = "zone" THEN EmptyBuf ELSE vBuf
+  ELSE IF e.op = "zone" THEN
      LET z == MkZone(e.a) tags == VZone(e, z) accepted == Has(e.r, "ok") IN
      /\ vBad' = vBad \cup {<<vL, t>> : t \in tags}
      \* re-synchronised from the logged outcome; an accepted zone that no definition can be evaluated on (no type, a type index
